@@ -183,7 +183,10 @@ def torch_family_nll_is_textbook_density(cls, x, _ARGS, result):
     if got.shape != want.shape:
         return _fail("bernoulli/nll-entry-mismatch/shape", f"bernoulli._nll: result shape {got.shape} != {want.shape}")
     # saturated entries: must stay finite, non-negative and never exceed the true value (it is a clamp, not a density)
-    sat = ~bernoulli_judged_mask(pb, p.dtype if isinstance(p, torch.Tensor) else torch.float64) & observed & np.isfinite(pb) & (pb > 0) & (pb < 1) & ~np.isnan(want)
+    # incl. probabilities EXACTLY 0 or 1 (a saturated float32 sigmoid) when the outcome matches (exact density 0); a mismatching
+    # outcome has density +inf there and is not judged
+    sat = ~bernoulli_judged_mask(pb, p.dtype if isinstance(p, torch.Tensor) else torch.float64) & observed & np.isfinite(pb) & (pb >= 0) & (pb <= 1) \
+        & ~np.isnan(want) & np.isfinite(want)
     STATS["bernoulli._nll::entries_saturated_not_judged"] += int(sat.sum())
     if sat.any():
         g = got[sat]
@@ -345,6 +348,31 @@ def install():
     _wrap_classmethod(A, "compute_log_likelihood_hazard", weibull_log_hazard_is_textbook)
     _wrap_staticmethod(D.WeibullRightCensoredFamily, "_extract_reparametrized_nu", weibull_reparam_nu_is_documented)
     _wrap_staticmethod(D.WeibullRightCensoredWithSourcesFamily, "_extract_reparametrized_nu", weibull_reparam_nu_is_documented)
+    # a subclass that overrides one of these methods would bypass the contract set on its parent: wrap every override too
+    def all_subclasses(k):
+        out = []
+        for c in k.__subclasses__():
+            out.append(c)
+            out.extend(all_subclasses(c))
+        return out
+
+    for base, names_conds in (
+        (D.NormalFamily, (("_nll", normal_nll_is_textbook_density), ("_nll_and_jacobian", normal_nll_and_jacobian_is_textbook),
+                          ("_nll_jacobian", normal_nll_jacobian_is_textbook))),
+        (D.StatelessDistributionFamilyFromTorchDistribution, (("_nll", torch_family_nll_is_textbook_density),)),
+        (A, (("_nll", weibull_nll_is_textbook_right_censored_density), ("compute_log_survival", weibull_log_survival_is_minus_cumulative_hazard),
+             ("compute_log_likelihood_hazard", weibull_log_hazard_is_textbook))),
+    ):
+        for sub in all_subclasses(base):
+            if sub in (D.NormalFamily, A):
+                continue
+            for nm, cond in names_conds:
+                raw = sub.__dict__.get(nm)
+                if isinstance(raw, classmethod) and not getattr(raw.__func__, "__preconditions__", None) and not hasattr(raw.__func__, "__postconditions__"):
+                    if base is D.StatelessDistributionFamilyFromTorchDistribution and issubclass(sub, (D.NormalFamily, A)):
+                        continue  # these families have their own hard-coded densities, wrapped above
+                    _wrap_classmethod(sub, nm, cond)
+                    STATS[f"override_wrapped::{sub.__name__}.{nm}"] += 1
     _INSTALLED["done"] = True
     return STATS
 
